@@ -252,6 +252,13 @@ def run_case(ctx, case):
             g = b(instance)
             wn, we = spec(r, name)
             check_graph(ctx, r, instance, name, g, wn, we, "built")
+            if case["seed"] % 4 == 0:
+                # graphs are copied (copy.deepcopy) by their users - the environments keep an
+                # initial copy and restore it at every reset: a copy is the same graph
+                import copy
+                g2 = copy.deepcopy(g)
+                check_graph(ctx, r, g2.instance, name, g2, wn, we, "deep copy of a built graph")
+                ctx.count("deep_copied_graphs_checked")
             built.append((r, instance, name, g, wn, we))
             ctx.count("builder_checks")
             ctx.distinct.add(f"{name}:{hash(gen.fingerprint(inst))}") if gen.competing(inst) else None
@@ -266,7 +273,12 @@ def run_case(ctx, case):
         ctx.count("class_" + inst["cls"])
         return
     from job_shop_lib import Schedule, ScheduledOperation
-    run = Run(inst)
+    # sometimes the dispatcher carries a user-written filter and operations outside the filter's
+    # answer are dispatched as well (any ready operation may be dispatched)
+    fs = {"names": [rng.choice(gen.CUSTOM_FILTERS)], "form": "custom"} if case["seed"] % 5 == 1 else None
+    run = Run(inst, fs)
+    if fs:
+        ctx.count("solved_with_a_user_filter_on_the_dispatcher")
     if case["seed"] % 3 == 0:
         # the dispatcher was used before: an abandoned episode with clock / start-time queries
         for _ in range(rng.randint(1, run.r.num_ops)):
